@@ -32,7 +32,11 @@ class Thrown(Exception):
 
 
 class RuntimeErr(Exception):
-    pass
+    """a runtime error; `injected` = raised by a deliberately ill-typed operation (certain to be an
+    error-level diagnostic in the implementation), as opposed to a nil operand (only a warning there)"""
+    def __init__(self, msg='', injected=False):
+        Exception.__init__(self, msg)
+        self.injected = injected
 
 
 # ---------------------------------------------------------------------------------------------------
@@ -438,7 +442,7 @@ class Interp:
         if k == 'nil':
             return NIL
         if k == 'err':
-            raise RuntimeErr(n[1])
+            raise RuntimeErr(n[1], injected=True)
         if k == 'bin':
             a, b = self.ev(n[2]), self.ev(n[3])
             if a is NIL or b is NIL:
@@ -713,8 +717,8 @@ class Interp:
             if p[2] is not None:
                 last = self.ev(p[2])
             return 'ok', last
-        except RuntimeErr:
-            return 'error', NIL
+        except RuntimeErr as e:
+            return ('error' if e.injected else 'nil-error'), NIL
         except (ExitScope, BreakOut, Thrown):
             return 'escape', NIL
 
